@@ -115,6 +115,18 @@ CLAIMED = {
         "Trusted: see evidence.trusted_base; no theorem yet for parent/referring (correspondence + oracle only); trees deeper than "
         "48 levels are outside the model.",
         "DESIGN.md section 5 C13", TECH),
+    "C18": (
+        "Coq theorems over the micro-step machine of nixio/cmd/upgrade.py (collect_tasks with the >= early return, one step per "
+        "task / property / alias dimension, each re-checking its object, version bump last): after ANY proper prefix the old "
+        "version is still in the header; upgrading what an interrupted run left behind gives the file of the uninterrupted run; "
+        "the result is the fully converted file with every property value kept; idempotent; nothing left for collect_tasks; an "
+        "up-to-date file is untouched; the result passes C11's gate for writing. Library version translated from source. Tie: "
+        "old-format files crafted with h5py (all value types, extras, alias/ticks/linked dimensions, with/without id), upgrade "
+        "cut at EVERY write-reopening, abstract state read back with h5py and compared with the model; the result is opened for "
+        "writing with nixio and values/units/ticks/data compared with the crafted content.",
+        "Trusted: Coq kernel; interruption points = re-openings of the file for writing (a crash inside one property conversion is "
+        "outside the property); h5py/HDF5 not modelled; the abstraction function (h5py reader) in harness/impl_upgrade.py.",
+        "DESIGN.md section 5 C18", TECH),
 }
 
 PENDING_REASON = ("check not built yet in this revision (work in progress: the property is meant to be decided by Coq "
